@@ -143,7 +143,7 @@ var registry = map[string]check{
 	},
 	"C16": {
 		parts: []part{{"disk", layerd.C16, 48, 192}}, replay: layerd.Replay, level: "fault_enumeration", components: compD,
-		rule:        "cases = generated package layouts (several *_co.go files whose helpers and types live in a plain sibling file, so the optimise stage reloads a partial package; *_co_test.go; co-named files importing but not using / not importing the API; API-using file without the suffix; sub-package) x variant (clean / stale sibling <dir>_tmp of a killed run / stale outputs of an older source version). History: snapshot, cogen, snapshot, go build, go build -tags co, go test, cogen, snapshot. Oracle: created paths are exactly the _co-stripped names of API-using co files, each starts with the '!co' constraint and the generated-code header, nothing else created/modified/left (no <dir>_tmp), builds and tests pass, second run byte-identical.",
+		rule:        "cases = generated package layouts (several *_co.go files whose helpers and types live in a plain sibling file, so the optimise stage reloads a partial package; *_co_test.go; co-named files importing but not using / not importing the API; API-using file without the suffix; sub-package) x variant (clean / stale sibling <dir>_tmp of a killed run / stale outputs of an older source version / a first run that the tool rejects half-way, after which the offending file is removed and a processed co file renamed). History: snapshot, cogen, snapshot, go build, go build -tags co, go test, cogen, snapshot. Oracle: created paths are exactly the _co-stripped names of API-using co files, each starts with the '!co' constraint and the generated-code header, nothing else created/modified/left (no <dir>_tmp), builds and tests pass, second run byte-identical.",
 		assumptions: []string{"the tool is run the way go:generate runs it (GOFILE set, cwd = package directory)"},
 	},
 	"C08": {
